@@ -148,10 +148,17 @@ def build_stream(ctx):
     for s in rng.sample(iso_bases, min(len(iso_bases), ctx.budget(120, 10 ** 6))):
         add("isoparse", None, True, "bytes", s)
         add("isoparse", None, True, "stream", s)
+        add("isoparse", None, True, "bstream", s)
+        add("isoparse", None, True, "stream@7", s)
+        add("isoparse", None, True, "bstream@3", s)
+        for wv in ic.WHITESPACE_VARIANTS:
+            for kd in ("str", "bytes", "stream", "bstream", "stream@7"):
+                add("isoparse", None, True, kd, wv(s))
         for _ in range(6):
             m = ic.random_edit(s, rng, ic.ALPHABET + ["é", " ", "１"])
             add("isoparse", None, True, "bytes", m)
             add("isoparse", None, True, "stream", m)
+            add("isoparse", None, True, "bstream", m)
         if len(s) > 10:
             i = rng.randrange(len(s))
             add("isoparse", None, True, "str", s[:i] + "１" + s[i + 1:])    # fullwidth digit one
@@ -163,6 +170,10 @@ def build_stream(ctx):
             for z in zs:
                 add(entry, None, z, "str", s)
                 add(entry, None, z, "bytes", s)
+                for kd in ("stream", "bstream", "stream@7", "bstream@3"):
+                    add(entry, None, z, kd, s)
+                    add(entry, None, z, kd, s + "\n")
+                    add(entry, None, z, kd, " " + s)
                 for m in ic.one_edits(s):
                     add(entry, None, z, "str", m)
                 for _ in range(ctx.budget(10, 150)):
@@ -215,7 +226,7 @@ def run_impl(ctx):
 
 def model_input(s, kind):
     """what the model op receives: the str's UTF-8 (gate applied) or the bytes (no gate)"""
-    return s.encode("utf-8") if kind == "bytes" else s
+    return s.encode("utf-8") if ic.is_bytes_kind(kind) else s
 
 
 def correspondence(ctx):
